@@ -105,11 +105,10 @@ func (s *scanner) ScanToken() (Object, error) {
 			s.SkipByte()
 			return Operator(">>"), nil
 		default:
-			err := s.err
-			if err == nil {
-				err = &postScriptError{eSyntaxerror, "unexpected '>'"}
+			if len(bb) < 2 && s.err != nil {
+				return nil, s.err
 			}
-			return nil, err
+			return nil, &postScriptError{eSyntaxerror, "unexpected '>'"}
 		}
 	case '/':
 		var name []byte
